@@ -57,8 +57,18 @@ def rule_rewrite_order(ctx: Ctx) -> None:
     wnode = norm(outer[-1].target) if outer else None
     removed = any(isinstance(s_, ast.Expr) and isinstance(s_.value, ast.Call) and call_name(s_.value) == "self.remove_op"
                   and s_.value.args and norm(s_.value.args[0]) == wnode for o in outer for s_ in o.body)
-    if removed:
-        ctx.ok("order.wrapper", m, fn, what="wrapper node removed after expansion")
+    skips = [x for o in outer[-1:] for x in ast.walk(o) if isinstance(x, (ast.Continue, ast.Break)) and not any(
+        isinstance(a_, (ast.For, ast.While)) and a_ is not o and any(y is x for y in ast.walk(a_)) for a_ in ast.walk(o))]
+    cond_steps = [s_ for o in outer[-1:] for s_ in o.body if isinstance(s_, ast.If) and any(
+        (isinstance(c_, ast.Call) and call_attr(c_) in ("insert_at", "remove_op")) for c_ in ast.walk(s_))]
+    if skips or cond_steps:
+        node_ = (skips or cond_steps)[0]
+        ctx.fail("order.wrapper", m, node_,
+                 f"unwrap_nodes does not expand every wrapper: `{short(node_, 60)}` (line {node_.lineno}) lets some wrapper nodes through unexpanded; everything that "
+                 f"normalises with unwrap_nodes (circuit comparison, the emitter-depth metrics) then treats a one-gate wrapper as an opaque node, so W[H] and W[X] "
+                 f"compare equal", func="CircuitDAG.unwrap_nodes", construct="unwrap_nodes: some wrappers are skipped")
+    elif removed:
+        ctx.ok("order.wrapper", m, fn, what="every wrapper node expanded and removed")
     else:
         ctx.fail("order.wrapper", m, fn, "unwrap_nodes no longer removes the wrapper node after inserting its expansion",
                  func="CircuitDAG.unwrap_nodes", construct="unwrap_nodes: wrapper not removed")
@@ -406,6 +416,7 @@ def rule_unwrap_source(ctx: Ctx) -> None:
 
 
 KNOCKOUTS = [
+    Knockout("unwrap-skips-single-gate-wrappers", DAG, sub_once("                op_list = self.dag.nodes[node][\"op\"].unwrap()\n", "                op_list = self.dag.nodes[node][\"op\"].unwrap()\n                if len(op_list) < 2:\n                    continue\n"), "order.wrapper", "skipped"),
     Knockout("grouping-skips-identity-with-open-run", DAG, sub_once("                    else:\n                        gate_list.append(op.__class__)\n                        noise_list.append(op.noise)\n                    self.remove_op(node)", "                    elif isinstance(op, ops.Identity) and isinstance(op.noise, NoNoise):\n                        self.remove_op(node)\n                        continue\n                    else:\n                        gate_list.append(op.__class__)\n                        noise_list.append(op.noise)\n                    self.remove_op(node)"), "group.run-closed", "open run"),
     Knockout("unwrap-not-reversed", "graphiq/circuit/ops.py", sub_once("        return gates[::-1]\n\n    def openqasm_info(self):", "        return gates\n\n    def openqasm_info(self):"), "unwrap.order", "reversed"),
     Knockout("unwrap-after-noise-appended", "graphiq/circuit/ops.py", sub_once("                gates.insert(0, noise)\n            else:\n                gates.append(noise)", "                gates.append(noise)\n            else:\n                gates.insert(0, noise)"), "unwrap.order", "After gate"),
